@@ -3,7 +3,7 @@ from __future__ import annotations
 
 import numpy as np
 
-from . import corr_api, corr_eig, corr_index, corr_sgperm, corr_stages
+from . import corr_api, corr_eig, corr_index, corr_relabel, corr_sgperm, corr_stages
 from . import oracles as O
 from .gen import crystal
 
@@ -322,7 +322,7 @@ PROPS = {
         "trusted": [KERNELS["posv"], KERNELS["float"]],
     },
     "C07": {
-        "lean": "SymfcModel.Props.C07", "gen": ["Cutoff", "Api"],
+        "lean": "SymfcModel.Props.C07", "gen": ["Cutoff", "ApiCompute"],
         "corr": [{"fn": C.corr_combinations, "quick": {"n_cases": 45}, "thorough": {"n_cases": 300}},
                  {"fn": C.corr_perm_stage, "quick": {"n_cases": 24}, "thorough": {"n_cases": 150}}],
         "oracle": [{"name": "cutoff", "fn": o_cutoff, "quick": {"n": 6}, "thorough": {"n": 24}, "search": {"n": 18}}],
@@ -356,8 +356,10 @@ PROPS = {
         "trusted": [KERNELS["eigh"], KERNELS["float"]],
     },
     "C10": {
-        "lean": "SymfcModel.Props.C10", "gen": ["PermTables"],
+        "lean": "SymfcModel.Props.C10", "gen": ["PermTables", "Cutoff"],
         "corr": [{"fn": C.corr_cell_index, "quick": {"n_cases": 9}, "thorough": {"n_cases": 60}},
+                 {"fn": corr_relabel.corr_relabel, "quick": {"n_cases": 20}, "thorough": {"n_cases": 150}},
+                 {"fn": C.corr_perm_stage, "quick": {"n_cases": 8}, "thorough": {"n_cases": 40}},
                  {"fn": corr_sgperm.corr_sg_perm, "quick": {"n_cases": 40}, "thorough": {"n_cases": 300}}],
         "oracle": [{"name": "description", "fn": o_description, "quick": {"n": 25}, "thorough": {"n": 100}, "search": {"n": 60}}],
         "known": known_F1,
@@ -376,7 +378,7 @@ PROPS = {
         "trusted": [KERNELS["eigh"], KERNELS["float"], "thread count / BLAS reduction order and log_level are not modelled"],
     },
     "C12": {
-        "lean": "SymfcModel.Props.C12", "gen": ["Api", "Solver"],
+        "lean": "SymfcModel.Props.C12", "gen": ["ApiOrders", "ApiDataset", "ApiSolve", "ApiCompute", "Solver"],
         "corr": [{"fn": corr_api.corr_api, "quick": {"n_hist": 40}, "thorough": {"n_hist": 300, "hist_len": 9}}],
         "oracle": [{"name": "history", "fn": o_history, "quick": {"n": 8}, "thorough": {"n": 40}, "search": {"n": 24}},
                    {"name": "basis_untouched_by_fit", "fn": o_ortho_after_fit, "quick": {"n": 6}, "thorough": {"n": 24},
@@ -407,7 +409,7 @@ PROPS = {
         "trusted": [KERNELS["eigh"], KERNELS["float"]],
     },
     "C16": {
-        "lean": "SymfcModel.Props.C16", "gen": ["Api"],
+        "lean": "SymfcModel.Props.C16", "gen": ["ApiOrders", "ApiDataset", "ApiSolve", "ApiCompute"],
         "corr": [{"fn": corr_api.corr_check_orders, "rng": False, "quick": {}, "thorough": {}},
                  {"fn": corr_api.corr_api, "quick": {"n_hist": 40}, "thorough": {"n_hist": 300, "hist_len": 9}}],
         "oracle": [{"name": "api_invalid", "fn": o_api_invalid, "quick": {"n": 3}, "thorough": {"n": 16}, "search": {"n": 8}}],
